@@ -271,7 +271,8 @@ pub fn abs_deps(deps: &IndexMap<String, Dependency>, it: &mut Intern) -> Sx {
           abs_res(&d.maybe_type, it),
           Sx::b(d.is_dynamic),
           Sx::b(d.maybe_deno_types_specifier.is_some()),
-          Sx::A(attr_id(d.maybe_attribute_type.as_deref())),
+          // 9: no type attribute and every import of the target is a source-phase import
+          Sx::A(if d.maybe_attribute_type.is_none() && !d.imports.is_empty() && d.imports.iter().all(|i| i.kind.is_source_phase()) { 9 } else { attr_id(d.maybe_attribute_type.as_deref()) }),
         ])
       })
       .collect(),
